@@ -1266,14 +1266,21 @@ int32_t jls_core_repair_fsr(struct jls_core_s * self, uint16_t signal_id) {
     while (level > 0) {
         JLS_LOGI("repair_fsr signal_id %d, level %d, offset %" PRIi64, (int) signal_id, (int) level, offset);
 
+        const uint16_t level_meta = (uint16_t) (signal_id | (((uint16_t) level) << 12));
         if (jls_core_rd_chunk(self)) {  // read index
             break;
+        }
+        if ((self->chunk_cur.hdr.tag != JLS_TAG_TRACK_FSR_INDEX) || (self->chunk_cur.hdr.chunk_meta != level_meta)) {
+            break;  // not an index chunk of this signal and level
         }
         index_head = self->chunk_cur;
         memcpy(lvl->index, self->buf->start, self->chunk_cur.hdr.payload_length);
 
         if (jls_core_rd_chunk(self)) {  // read summary
             break;
+        }
+        if ((self->chunk_cur.hdr.tag != JLS_TAG_TRACK_FSR_SUMMARY) || (self->chunk_cur.hdr.chunk_meta != level_meta)) {
+            break;  // the chunk that follows is not this index's summary (e.g. appended by the repair of another signal)
         }
         track->index_head[level] = index_head;
         offset_index_next = index_head.hdr.item_next;
